@@ -228,6 +228,17 @@ def comment_pi_options(ctx: Ctx) -> None:
                 v = kwarg(c, opt)
                 ctx.ob(f"{name}({opt}=True)", isinstance(v, ast.Constant) and v.value is True, at=fi, node=c, construct=f"{name} {opt}",
                        msg=f"{opt} is not set: comments / PIs stay in the tree and cut element.text, unlike the native handler (<v>foo<?pi x?>bar</v> -> 'foo')")
+            # options that drop or alter character data relative to expat (trusted table of lxml parser options)
+            harmful = {"resolve_entities": True, "remove_blank_text": False, "strip_cdata": True, "attribute_defaults": False}
+            benign = {"events", "recover", "remove_comments", "remove_pis", "load_dtd", "huge_tree", "no_network", "encoding", "collect_ids", "dtd_validation", "schema",
+                      "compact", "ns_clean", "base_url", "tag", "html", "source"}
+            for k in c.keywords:
+                if k.arg in harmful:
+                    want = harmful[k.arg]
+                    ctx.ob(f"{name}({k.arg}=...) keeps the library default ({want})", isinstance(k.value, ast.Constant) and k.value.value is want, at=fi, node=c, construct=f"{name} {k.arg}",
+                           msg=f"{k.arg}={unparse(k.value)} makes lxml deliver other character data than expat for the same document (e.g. general entities of the internal subset no longer expanded)")
+                elif k.arg is not None and k.arg not in benign:
+                    ctx.ob(f"{name}({k.arg}=...) is a classified parser option", False, at=fi, node=c, construct=f"{name} {k.arg}", msg="unclassified lxml parser option: its effect on the infoset is unknown to the checker")
         elif name in ("etree.parse", "etree.fromstring", "etree.XML"):
             n += 1
             p = kwarg(c, "parser")
